@@ -452,6 +452,45 @@ def synthetic_tables(rng, tmpdir, n_tables):
     return tables
 
 
+def expected_table(lines):
+    """the strings a string file holds, from the documented line format <hash>||<message>||<location>, written without the
+    implementation's regular expression: the message is everything between the first and the last separator"""
+    import re
+    out = []
+    for ln in lines:
+        t = ln[len(re.match(r"\s*", ln).group(0)):]
+        k = 0
+        while k < len(t) and t[k] in "0123456789":
+            k += 1
+        if k == 0:
+            continue
+        rest = t[k:]
+        rest = rest[len(re.match(r"\s*", rest).group(0)):]
+        if not rest.startswith("||"):
+            continue
+        rest = rest[2:]
+        j = rest.rfind("||")
+        if j < 0 or "\n" in rest or "\r" in rest:
+            continue
+        out.append((int(t[:k]), rest[:j].strip(), rest[j + 2:].strip()))      # surrounding blanks do not belong to the message
+    return out
+
+
+def check_table_parse(run, table):
+    if table.source is None:
+        return
+    run.evaluations += 1
+    run.count("string-file-parse")
+    want = expected_table(table.source)
+    got = [(h, f, l) for h, f, l in table.tbl]
+    if [(h, f) for h, f, _ in want] != [(h, f) for h, f, _ in got]:
+        k = next((i for i, (a, b) in enumerate(zip(want, got)) if a[:2] != b[:2]), min(len(want), len(got)))
+        run.violation("stringfile:parsed-table", "the trace strings read from a string file are not those its lines hold (%d expected, %d read; first difference at entry %d)"
+                      % (len(want), len(got), k),
+                      dict(kind="S", fn="string-file", lines=table.source[:200], expected=[list(x) for x in want[max(0, k - 1):k + 2]],
+                           actual=[list(x) for x in got[max(0, k - 1):k + 2]]))
+
+
 def pick_hash(rng, table, mode):
     """a hash value that has an exact / only partial / no match in the table"""
     hs = [s[0] for s in table.tbl]
@@ -556,6 +595,8 @@ def run(run, model, proof):
     tmpdir = tempfile.mkdtemp(prefix="verif_c15_")
     try:
         tables = synthetic_tables(rng, tmpdir, 6 if thorough else 3)
+        for t_ in tables:
+            check_table_parse(run, t_)
         iodir = os.path.join(common.ROOT, "modules", "io_drawer")
         shipped = [Table(n, os.path.join(iodir, n)) for n in ("mexStringFile", "nimitzStringFile")]
         every = tables + shipped
